@@ -382,6 +382,41 @@ func (s *Sim) opMisuse(op *Op) {
 				s.exchanger(idx, []int{c}).RemoveBatch(all(), nil)
 			})
 		}
+	case "missing_target_chain":
+		// An omitted relation target must be rejected whatever the entity went through before.
+		// Step 1 is an odd call (two targets for the single relation of a Map, or a relation
+		// target in an Exchange that only removes) that ark may reject or accept; step 2 adds
+		// another relation component without its target and must panic. A world of its own.
+		w := ecs.NewWorld(4)
+		u := w.Unsafe()
+		rA, rB, x := ecs.ComponentID[T12](w), ecs.ComponentID[T13](w), ecs.ComponentID[T02](w)
+		t0, t1 := w.NewEntity(), w.NewEntity()
+		var e ecs.Entity
+		variant := "map_two_targets"
+		var step1, step2 func()
+		if op.N%2 == 0 {
+			e = w.NewEntity()
+			step1 = func() { ecs.NewMap[T12](w).Add(e, &T12{}, t0, t1) }
+			step2 = func() { ecs.NewMap[T13](w).Add(e, &T13{}) }
+			if op.N%4 == 0 {
+				step2 = func() { u.Add(e, rB) }
+			}
+		} else {
+			variant = "exchange_remove_only"
+			e = u.NewEntityRel([]ecs.ID{x, rA}, ecs.RelID(rA, t0))
+			step1 = func() { u.Exchange(e, nil, []ecs.ID{x}, ecs.RelID(rA, t1)) }
+			step2 = func() { u.Add(e, rB) }
+			if op.N%4 == 1 {
+				step2 = func() { ecs.NewMap1[T13](w).Add(e, &T13{}) }
+			}
+		}
+		s.C.Checks["pre.panics"]++
+		s.C.Faults["misuse_missing_target_chain"]++
+		if p1, _ := s.call(step1); !p1 {
+			if p2, _ := s.call(step2); !p2 {
+				s.violate("C10", "pre.panics", "missing_target_chain/"+variant, false, "adding a relation component without its target did not panic (after the call %q had been accepted); the relation now targets %v", variant, u.GetRelation(e, rB))
+			}
+		}
 	case "empty_list":
 		e := s.M.PickLive(op.E)
 		if e == nil || s.locked() {
